@@ -54,10 +54,67 @@ def check(c, f, call, tag):
     c.case(key, dict(kind=tag, req=req[:200], impl=hi[:160]) if key and c.evaluations % 400 == 0 else None)
 
 
+# ---- the same call shapes through the LANGUAGE (lexer, parser, Program::eval_args / eval_callable, then the binder): one-call programs
+SRC_OF = {'bool:true': 'true', 'u8:7': 'ipv4::proto::UDP', 'u16:300': 'dns::rtype::NS', 'u32:70000': '70000', 'u64:5000000000': '5000000000', 'ip4:16909060': '1.2.3.4',
+          'sock4:16909060:80': '1.2.3.4:80', 'str:6162': '"ab"', 'mk:tcp': 'ob', 'func:std::be16': 'std::be16', 'mkm:tcp.open': 'ob.open',
+          'pkt:000102030405060708090a0b0c0d': 'pk', 'pktgen:[0001,0203]': 'pg', 'timejump:5': 'tj'}
+SPEC_OF = {'u8:7': 'u8:17', 'u16:300': 'u16:2', 'u32:70000': 'u64:70000'}      # the type the source expression really has
+CTOR_SRC = {'ipv4::tcp::TcpFlow': 'ipv4::tcp::flow(1.2.3.4:1000, 5.6.7.8:80)', 'ipv4::udp::UdpFlow': 'ipv4::udp::flow(1.2.3.4:1000, 5.6.7.8:53)',
+            'ipv4::icmp::Icmp': 'ipv4::icmp::flow(1.2.3.4, 5.6.7.8)', 'ipv4::IpFrag': 'ipv4::frag(1.2.3.4, 5.6.7.8, "|%s|")' % bytes(range(40)).hex(),
+            'vxlan::Vxlan': 'vxlan::session(1.2.3.4:1000, 5.6.7.8:4789)', 'gre::Gre': 'gre::session(1.2.3.4, 5.6.7.8, 25944)',
+            'erspan1::Erspan1': 'erspan1::session(1.2.3.4, 5.6.7.8)', 'erspan2::Erspan2': 'erspan2::session(1.2.3.4, 5.6.7.8)', 'io::BufIO': 'io::bufio("|00010203040506070809|")'}
+E2E_HEAD = ''.join('import %s;\n' % m for m in ['dhcp', 'dns', 'erspan1', 'erspan2', 'eth', 'gre', 'io', 'ipv4', 'netbios', 'std', 'text', 'time', 'tls', 'vxlan']) + \
+    'let ob = ipv4::tcp::flow(9.9.9.9:9, 8.8.8.8:8);\nlet pk = ob.client_ack();\nlet pg = ob.open();\nlet tj = time::jump_nanos(5);\n'
+
+
+def e2e(c, f, call, tag):
+    """accept / reject of a one-call program on the real binary against the calling convention (Spec.bind) and the model"""
+    from .. import progdiff
+    if any(v == 'nil' for _, v in call): return
+    args = ', '.join(('%s: %s' % (n, SRC_OF[v])) if n else SRC_OF[v] for n, v in call)
+    if '.' in f['path']:
+        cls, m = f['path'].split('.')
+        body = 'let o2 = %s;\nlet r = o2.%s(%s);\n' % (CTOR_SRC[cls], m, args)
+    else:
+        body = 'let r = %s(%s);\n' % (f['path'], args)
+    src = (E2E_HEAD + body).encode()
+    impl, model = progdiff.run_both(c, src)
+    progdiff.compare(c, src, impl, model, 'bind-e2e')
+    sp = c.model.ask('oracle bind %s %s' % (f['path'], ' '.join('%s=%s' % (n or '-', SPEC_OF.get(v, v)) for n, v in call)))
+    o = impl['outcome']
+    last = src.count(b'\n')
+    if sp.startswith('err') and not (o[0] == 'failure' and o[1] == 'Type' and o[2] and o[2][0] == last):
+        c.violation('bind:accepts:e2e', 'the calling convention refuses %s(%s) (%s) but the compiler reports %s' % (f['path'], args, sp[:40], o[:3]), dict(func=f['path'], call=call, src=src.decode()))
+    elif sp.startswith('ok') and o[0] == 'panic':
+        c.violation('bind:panic:e2e', '%s(%s) panics' % (f['path'], args), dict(func=f['path'], call=call, src=src.decode()))
+    c.traces_validated += 1
+    c.count('e2e:' + sp.split(' ')[0] + '/' + o[0] + (':' + str(o[1]) if o[0] == 'failure' else ''))
+    c.case(('e2e', f['path'], tuple(call)), dict(kind=tag, call=body[:160], impl=str(o[:2])) if c.evaluations % 300 == 0 else None)
+
+
 def campaign(c):
     c.rule = RULE
     lib = Lib()
     L = 2 if c.quick else 3
+    # one-call programs: every signature x every shape of length <= 1 (quick) / 2 (thorough), then random longer ones
+    for f in lib.funcs:
+        names = [a['name'] for a in f['args']]
+        nameset = [None] + list(dict.fromkeys(([names[0]] if names else []) + (names[1:2]) + (names[-1:]))) + ['bogus']
+        opts = [(n, v) for n in nameset for v in values_for(f, n if n != 'bogus' else None)[:2]]
+        pos = [(None, values_for(f, a['name'])[0]) for a in f['args'] if a['kind'] == 'pos']
+        for ln in range(0, (1 if c.quick else 2) + 1):
+            for call in itertools.product(opts, repeat=ln):
+                e2e(c, f, list(call), 'e2e-exh')
+                if pos and ln: e2e(c, f, pos + list(call), 'e2e-exh')      # the mandatory parameters supplied, then the shape
+    for i in range(600 if c.quick else 20000):
+        r = c.rng.fork('e2e%d' % i)
+        f = r.choice(lib.funcs)
+        names = [a['name'] for a in f['args']]
+        call = [(None, values_for(f, a['name'])[0]) for a in f['args'] if a['kind'] == 'pos'] if r.chance(1, 2) else []
+        for _ in range(r.below(4)):
+            n = None if r.chance(1, 2) or not names else (r.choice(names) if r.chance(5, 6) else 'nosuch')
+            call.append((n, REPS[r.choice(ALLT)] if r.chance(1, 2) else r.choice(values_for(f, n))))
+        e2e(c, f, call, 'e2e-rand')
     for f in lib.funcs:
         names = [a['name'] for a in f['args']]
         nameset = [None] + list(dict.fromkeys(([names[0]] if names else []) + (names[1:2]) + (names[-1:]))) + ['bogus']
